@@ -260,6 +260,16 @@ impl<'a> Fold<Diagnostic> for TypeResolver<'a> {
                 Ok(InitialValueAssignmentKind::Simple(simple))
             }
             InitialValueAssignmentKind::Structure(init) => {
+                // The initializer of a function block instance is written in
+                // the same way as the initializer of a structure.
+                if let Some(TypeDefinitionKind::FunctionBlock) = self.types.find(&init.type_name) {
+                    return Ok(InitialValueAssignmentKind::FunctionBlock(
+                        FunctionBlockInitialValueAssignment {
+                            type_name: init.type_name,
+                            init: init.elements_init,
+                        },
+                    ));
+                }
                 self.check_declared(&init.type_name);
                 Ok(InitialValueAssignmentKind::Structure(init))
             }
